@@ -1,5 +1,5 @@
 """C06: check configuration (PROP) and MANIFEST texts (TEXT)."""
-PROP = {'n_quick': 240,
+PROP = {'tables': ['C17'], 'n_quick': 240,
  'n_thorough': 3000,
  'audit': 8,
  'audit_maxlen': 400,
